@@ -189,3 +189,18 @@ reg('C09',
     level_text='Exhaustive over the stated message pairs: any difference between B-after-A and B-alone is reported with both traces.',
     level_note='differential oracle: no expected values are written by hand',
     design_ref='DESIGN.md section 3 / C09')
+
+reg('C08',
+    title='behaviour depends on the byte stream, not on how it is cut into input calls',
+    src='c08_chunking.c',
+    configs={'quick': ['def'], 'thorough': ['def', 'heap']},
+    deadline={'quick': 100, 'thorough': 1500},
+    level=MC,
+    technique='exhaustive enumeration of input segmentations (schedules) of bounded streams on the real SCPI_Input (ASan, tail-poisoned buffer), differential against the byte-at-a-time schedule',
+    rule={'quick': 'streams: every concatenation of 1..3 messages of a 13-message alphabet (block with embedded NL and ;, quoted string with embedded ; and with embedded NL, empty units, CR LF, undefined header, missing parameter, dangling comma, trailing blanks, exponent number, common+compound), optionally followed by an unterminated unit (5 tails); schedules: EVERY partition for streams <= 14 bytes, else every partition with <= 2 cut points + every uniform chunk size + all-at-once, in a 256-byte and an exactly-fitting input buffer, against one byte per call; plus the zero-length-call clause on every prefix; non-trivial = every schedule run (each is compared with the reference schedule)',
+          'thorough': 'streams of 1..4 messages, also in the static-heap build'},
+    assumptions=['return values of the individual SCPI_Input calls are not compared (they are per call, not per message)',
+                 'known finding: a line terminator inside a quoted string is acted on when the chunk boundary falls inside the string (known_findings.txt)'],
+    level_text='Exhaustive over all segmentations up to 2 cut points (all segmentations for short streams) of every stream in the stated set.',
+    level_note='differential oracle: observable trace, output, drained error queue and unconsumed remainder must be identical',
+    design_ref='DESIGN.md section 3 / C08')
